@@ -273,6 +273,14 @@ def db_run(evs, census=None):
             out.append({'ev': n, 'pid': pid, 'id': ev['id']})
         elif n in ('Commit', 'Rollback', 'Exit'):
             out.append({'ev': n, 'pid': pid})
+        elif n == 'LockWait':
+            fid = ev.get('fid')
+            if fid and fid < LOG_LOCK_MAGIC:
+                out.append({'ev': 'Block', 'pid': pid, 'what': 'lockwait'})
+        elif n == 'Select':
+            out.append({'ev': 'Block', 'pid': pid, 'what': 'select'})
+        elif n == 'StampInput':
+            out.append({'ev': 'Block', 'pid': pid, 'what': 'stdin'})
         elif n == 'RunStart':
             out.append({'ev': 'RunStart', 'pid': pid, 'runid': ev['runid'] - 1000000000 if ev['runid'] else 0,
                         'toplevel': bool(ev['toplevel'])})
